@@ -8,6 +8,42 @@ def repo_commits():
     return [l.split()[0] for l in out.splitlines() if " verif:" in " " + l]
 
 CHECKS = {
+ "C08": dict(
+  level="exploration", design="§4 C08",
+  technique="runtime monitoring / differential execution: emitted Go publishers and subscribers executed by reflection against recording transports, emitted Python (3 flavours) executed under stub modules, Java and Dart topic expressions extracted and evaluated; all compared with each other and a reference topic function",
+  text="Random scopes (name/op capitalisation classes, prefixes with 0-4 tokens and 0-3 variables, 3-6 delimiters, variable values) are compiled for six outputs; the topic each publisher and subscriber actually uses must agree pairwise and with prefix+delim+scope+delim+op. Fixed witness scopes re-run every known finding.",
+  note="Java and Dart are evaluated from source (String.format / interpolation model), not executed: unknown expression shapes are inconclusive. Reference reading of -delim (dots inside the prefix are kept) is stated in evidence."),
+ "C09": dict(
+  level="exploration", design="§4 C09",
+  technique="runtime monitoring: emitted client/processor over the leg matrix with a recording handler and wire tap; header maps compared at caller, handler and wire; op-id freshness by set membership; directed header-block-size sweep around buffer boundaries",
+  text="Random user header maps (empty, multi-byte, long values, names starting with _), correlation ids and timeouts on every transport x protocol leg plus NATS pub/sub: handler sees exactly the caller's headers / cid / timeout with a fresh op id, caller sees every response header the handler set, reply frames carry the request's op id and cid.",
+  note="Timeouts below 5 s are not used as header values (calls could legitimately expire). STOMP pub/sub leg not covered by C09 (C07 covers STOMP)."),
+ "C10": dict(
+  level="exploration", design="§4 C10",
+  technique="runtime monitoring / differential: the real parser's tree dumped into the canonical form of an independent IDL model and compared, over random models x lexical renderings (all single-knob variations for fixed models), round trips, the -gen json descriptor as a second view, and fixed witness programs for Thrift-compatibility lexical classes",
+  text="150 (quick) to 5 000 (thorough) models x 4-8 renderings + 27 single-knob styles must parse to exactly the model; render(parse(text)) must parse back to the same model; 32 lexical classes are pinned by hand-written witnesses that run on every invocation (19 of them are known findings of the generated PEG parser).",
+  note="Oracle = verif/idl canonical form + dumper. Type-level annotations are not modelled. pigeon is unavailable, so grammar defects are recorded as known findings rather than fixed."),
+ "C12": dict(
+  level="fault_enumeration", design="§4 C12",
+  technique="runtime monitoring: boundary sweeps of message sizes around every configured limit with MEASURED frame sizes (wire tap on an unlimited leg), outcome = pure function of (size, limit); canary call after every oversize outcome",
+  text="HTTP request/response limits, NATS 1 MiB request/response/publish limits, STOMP and custom transport declared limits x payload shapes (large part first/middle/last/map) x 3 protocols x sizes L-8..L+8 and far points: oversize never transmitted and reported as REQUEST_TOO_LARGE / RESPONSE_TOO_LARGE, within-limit never rejected, client and server keep working.",
+  note="HTTP response band (L, L+4] is unconstrained (server compares the unframed buffer). Adapter legs have no limit."),
+ "C14": dict(
+  level="exploration", design="§4 C14",
+  technique="runtime monitoring: reference-built request frames (schema-less Thrift writer) sent over raw connections to the simple, HTTP and NATS servers running the emitted processor; replies parsed independently and matched by op id and token; exactly-once counting with sentinel drains",
+  text="Sequences of 5-200 mixed requests (good, unknown method, malformed args, handler error kinds, oneway) sequentially and concurrently (1-16 connections, 1-8 NATS workers, 1-32 HTTP posts) x 3 protocols: exactly one well-formed reply per two-way request with the right message/exception type, none for oneway, later requests unaffected.",
+  note="After malformed arguments on a stream connection nothing more is asserted on that connection. The write mutex is only observable on the extra shared-output-protocol leg."),
+ "C15": dict(
+  level="fault_enumeration", design="§4 C15",
+  technique="runtime monitoring: fault enumeration on a scripted TTransport (every cut offset, every failing I/O index, all open/fail/reopen/close histories up to a bound, forced schedules via yield points) checked against a sequential reference model of the life cycle; goroutine-dump based deadlock criterion",
+  text="3-frame stream cut at every byte offset x 4 error kinds, k-th Read/Write/Flush/Open/Close failing, all histories over 7 letters up to length 4 (quick) / 5 (thorough) + random histories to length 30 under monitor policies: ends closed, exactly one close cause, monitor notified every time, reopen bounds respected, Open/Close/IsOpen always return.",
+  note="Histories are sequential apart from the Close-vs-error race op and three forced schedules. Real loopback TSocket leg not implemented."),
+ "C16": dict(
+  level="exploration", design="§4 C16",
+  technique="runtime monitoring: tracing and rewriting middleware at every attachment point of emitted clients, processors, publishers and subscribers; recorded enter/exit traces compared with the trace folded from the declared order",
+  text="Provider lists 0-4 x constructor lists 0-4 x AddMiddleware 0-2, observing and rewriting variants, every method kind (own, inherited, oneway, void, throwing) and every scope operation: each middleware exactly once, properly nested in the declared order, each seeing its neighbour's values, rewrites observed by the other side.",
+  note="Pub/sub uses an in-process loopback transport pair. Method names compared case-insensitively on the first letter (client side sees the internal lower-case name)."),
+
  "C05": dict(
   level="exploration", design="§4 C05",
   technique="runtime monitoring: hostile byte strings delivered to every receiving entry point of the real runtime (and emitted subscriber callbacks) in child processes, input logged before delivery, canary after each input, panic-trace and goroutine-dump based verdicts",
